@@ -16,6 +16,7 @@ TECH = ("value numbering of the circumcentre formula (exact identity |U-A|=|U-B|
 
 def check(ctx):
     repo = ctx.repo
+    ctx.rule("R07.5", "a constructed mesh is never modified: Mesh/EdgeMesh attributes are written by the constructors only", 1)
     ctx.rule("R07.1", "generate_voronoi_vertices returns the circumcentre: equidistant from the three triangle vertices", 2)
     ctx.rule("R07.2", "edges are sorted unique site pairs; boundary = incidence count one; centres/directions/lengths are those of the site pairs", 6)
     ctx.rule("R07.4", "cell areas are orientation independent: only unsigned area primitives (convex-hull area, abs(...)) flow into them, "
@@ -120,6 +121,8 @@ def check(ctx):
     ctx.decline("tiling of film minus holes, Euler characteristic, positive orientation and non-degeneracy of triangles (Triangle/meshpy), "
                 "clipped Voronoi areas of boundary cells (qhull convex hulls), terminal length 'to within one edge' (matplotlib path "
                 "membership): computed by external native libraries - no static argument in reach")
+    from ..effects import mesh_immutable
+    mesh_immutable(ctx, "R07.5", 'a Mesh object shared with another device (Device.copy(with_mesh=True)) or solution moves or changes under it: its triangulation no longer tiles film minus holes and its areas / dual edges disagree with its sites')
     ctx.assume("terminal length sums boundary edge lengths over the terminal's boundary edges: decided under C01 R01.4")
 
 
